@@ -140,10 +140,11 @@ struct Inst {
   std::shared_ptr<CmpCtx> ctx;
   std::string note;             // per-instance classification of the running operation
   bool ever_shifted = false;    // RU: some cell was inserted with a row index different from its position
+  int unread_steps = 0;         // RU: steps since the columns were last read
 
   std::string prior() const {
     bool shifted = ever_shifted;
-    return (note.empty() ? std::string("") : note + ",") + (F::ru ? (shifted ? "rowids=shifted," : "rowids=pos,") : "") + std::string("prior=") + (did_swap ? "s" : "") + (did_remove ? "r" : "") + (did_insert ? "i" : "") + ",ids=" +
+    return (note.empty() ? std::string("") : note + ",") + (F::ru ? (shifted ? "rowids=shifted," : "rowids=pos,") : "") + (unread_steps > 0 ? "delayed," : "") + std::string("prior=") + (did_swap ? "s" : "") + (did_remove ? "r" : "") + (did_insert ? "i" : "") + ",ids=" +
            ids_name(gapped, implicit) + (fresh ? ",fresh" : ",walked");
   }
   // public column index of the cell at position p
@@ -196,6 +197,7 @@ struct Driver {
   bool cellular = false;
   int max_vertices = 6;
   std::string lastop = "build", lastcls = "";
+  bool full_step = true;  // RU: read the columns after this step
   // per-case statistics for the non-triviality rule
   int n_swaps = 0, n_samedim = 0, n_exch = 0, n_removed = 0, n_inserted = 0, n_forks = 0, n_steps = 0;
 
@@ -355,7 +357,18 @@ struct Driver {
       c.count("cmp.max_dim");
       if (n > 0 && m.get_max_dimension() != md) return fail(in, "max_dimension", "get_max_dimension=" + vh::str(m.get_max_dimension()) + " model=" + vh::str(md));
     }
-    if constexpr (F::ru) return observe_ru(in); else return observe_chain(in);
+    if constexpr (F::ru) {
+      // RU matrices apply row swaps lazily, and every read of a column or of a pivot flushes them: the columns are therefore
+      // read only after about half of the steps (always after a build and at the end of the case), so that histories in
+      // which several operations run on top of pending swaps are exercised too.  A mismatch found by a delayed read carries
+      // "delayed" in its signature: the operation named there is the last one, not necessarily the faulty one.
+      if (!full_step) { c.count("obs.ru.light_only"); ++in.unread_steps; return true; }
+      bool ok = observe_ru(in);
+      in.unread_steps = 0;
+      return ok;
+    } else {
+      return observe_chain(in);
+    }
   }
 
   bool derived_bars_ok(I& in, const std::vector<int>& partner_birth, const std::string& what) {
@@ -801,7 +814,8 @@ struct Driver {
     try { in = build(true); } catch (const std::exception& e) { c.violation("fork.exception", F::name(), e.what()); return false; }
     if (insts.size() >= 2) insts.pop_back();
     insts.push_back(std::move(in));
-    if (!observe(*insts.back())) return false;
+    full_step = true;
+    for (auto& i2 : insts) if (!observe(*i2)) return false;
     c.count("op.fork"); ++n_forks;
     return true;
   }
@@ -824,6 +838,7 @@ struct Driver {
     for (int s = 0; s < steps; ++s) {
       n_steps = s + 1;
       for (auto& in : insts) in->note.clear();
+      full_step = (s + 1 == steps) || r.chance(1, 2);
       unsigned x = (unsigned)r.below(100);
       bool ok = true;
       if (x < 60) {
